@@ -273,6 +273,16 @@ func (fe *FE) Run() {
 		}
 		st.ghosts[g.Name] = v
 	}
+	for _, lw := range fe.C.LoopWrites {
+		ctx.what = "loopwrites"
+		v := ctx.eval(lw)
+		switch v.Kind {
+		case VScalar:
+			fe.loopWriteRefs = append(fe.loopWriteRefs, v.T)
+		case VSlice:
+			fe.loopWriteRefs = append(fe.loopWriteRefs, v.Arr)
+		}
+	}
 	st.oldVals = map[string]Val{}
 	for k, v := range st.ghosts {
 		st.oldVals[k] = v
@@ -445,7 +455,11 @@ func (fe *FE) havocLoop(st *State, li *loopInfo) {
 				before = name + "!0"
 			}
 			if after != "?" && after != before {
-				st.assume(fmt.Sprintf("(forall ((a Int)) (! (=> (<= a cnt!entry) (= (select %s a) (select %s a))) :pattern ((select %s a))))", after, before, after))
+				excl := ""
+				for _, w := range fe.loopWriteRefs {
+					excl += " (not (= a " + w + "))"
+				}
+				st.assume(fmt.Sprintf("(forall ((a Int)) (! (=> (and (<= a cnt!entry)%s) (= (select %s a) (select %s a))) :pattern ((select %s a))))", excl, after, before, after))
 			}
 		}
 	}
@@ -803,13 +817,13 @@ func (fe *FE) safety(st *State, goal, label, what string) bool {
 	if goal == "true" {
 		return true
 	}
-	if fe.nopanic {
+	if fe.nopanic && !fe.structuralRecover() {
 		fe.addOb(st, "safe", label, fe.tagsOf(fe.C.NoPanic), goal, what)
 		st.assume(goal)
 		return true
 	}
-	if fe.hasExceptional() {
-		// explore the panicking branch for ensures_always
+	if fe.hasExceptional() || fe.structuralRecover() {
+		// explore the panicking branch: deferred calls run, a recovering defer resumes at the recover block
 		t := st.clone()
 		t.assume(not(goal))
 		t.path = append(t.path, "panic:"+label)
